@@ -180,7 +180,7 @@ def ta_correspondence(chk, traces, shards=16, scripts=None, guards=False):
             gbody = parse_coq_print(out, 'GG')
             gitems = split_top(gbody.strip()[1:-1]) if gbody else []
             for n, it in zip(grp, gitems):
-                pairs = re.findall(r'\((\d+),\s*(\d+)\)', it)
+                pairs = re.findall(r'\(\s*(\d+)\s*,\s*(\d+)\s*\)', it)      # Coq wraps long lines anywhere
                 guard_fail[n] = [(int(a), int(b)) for a, b in pairs]
     # The order of allocations inside one Synchronize / configuration update is reconstructed from the instrumented
     # call trace. Where that reconstruction makes a capacity test of the model fail, the history is replayed once more
